@@ -315,7 +315,11 @@ FIXED_SOUPS = ['', ' ', '\n', '\t\n', 'x', '0', '&', '<', '%', '&dtml',
                '&dtml-', '&dtml.', '<dtml', '<!--', '<!-', '%(', ')s', ';',
                '"', "'", '\r\n', 'é', '\x00', 'a\n', '\n\n', ' \n ',
                'text &dtml', 'text <', 'a & b < c > d " e \' f % g',
-               '100% (sure)', '&amp; &lt; &#39;', '-->', ']', '[', '\\']
+               '100% (sure)', '&amp; &lt; &#39;', '-->', ']', '[', '\\',
+               # dotted entity look-alikes without a name part
+               '&dtml.foo;', 'AT&dtml.T;', '&dtml.a.b;', '&dtml.x-;',
+               '&dtml.-;', '&dtml.;', '&dtml-;', 'see &dtml.va; here',
+               '&dtml.html_quote;', '&dtml.url_quote.va;', '&dtml..;']
 
 
 # near-miss tags: one character inserted at every position of a real tag of
@@ -330,6 +334,16 @@ NEAR_SEPS = [' ', '-', '+', '#', '.', '0', '\n', '\t', '_', '/', ';', '!',
 
 def near_miss_soups():
     seen = set()
+    # one character (or a run of two or three) deleted from a real tag
+    for base in NEAR_BASES + ['&dtml.url_quote-va;', '&dtml.a.b-va;',
+                              '&dtml.-va;']:
+        for i in range(len(base)):
+            for w in (1, 2, 3):
+                t = base[:i] + base[i + w:]
+                for text in (t, 'growth 12' + t + ' of sales'):
+                    if text not in seen:
+                        seen.add(text)
+                        yield text
     for base in NEAR_BASES:
         for i in range(1, len(base) + 1):
             for sep in NEAR_SEPS:
@@ -339,6 +353,30 @@ def near_miss_soups():
                     if text not in seen:
                         seen.add(text)
                         yield text
+
+
+def fixed_in_templates():
+    """Loops whose body is literal text only, text around an insertion, or
+    empty, under every literal batch option set of the generator: the text is
+    emitted once per displayed element."""
+    T = lambda s: dict(k='text', s=s)
+    bodies = [[T('x')], [T('<b> & %\n')], [],
+              [T('['), dict(k='var', ref=dict(r='name', n='sequence-index'),
+                            opts=[]), T(']')],
+              [T('a'), dict(k='comment', body=[T('gone')], eol=['', '']),
+               T('b')]]
+    for seq in ('ss', 's2', 'sm', 's0'):
+        base = [['mapping', None]] if seq == 'sm' else []
+        for opts in [[]] + gen.BATCH_OPTS:
+            for b in bodies:
+                for els in (None, [T('(none)')]):
+                    if els is not None and seq not in ('s0', 'ss'):
+                        continue
+                    for eol in (['', '', ''], ['\n', ' \n', '\n']):
+                        yield [T('<'), dict(
+                            k='in', ref=dict(r='name', n=seq),
+                            opts=base + opts, body=b, eol=eol,
+                            **{'else': els}), T('>')]
 
 
 def plan(tier, seed):
@@ -357,6 +395,13 @@ def run_shard(shard):
                      distinct_by_construction=True)
             for b, msg in fails:
                 acc.fail(b, case, msg)
+        for i, ast in enumerate(fixed_in_templates()):
+            case = dict(kind='template', ast=ast, style=[i % 51, i % 7])
+            fails, nt = check_template(case, acc)
+            acc.case(case, True, klass='fixed-in-body',
+                     distinct_by_construction=True)
+            for b, msg in fails:
+                acc.fail(b + ':in-body', case, msg)
         for text in near_miss_soups():
             case = dict(kind='soup', text=text)
             fails, nt = check_soup(case)
